@@ -20,14 +20,15 @@ def best_sum(aff, n, m):
     return best
 
 
-def check(s, key, src, tgt):
+def check(s, key, src, tgt, buffers=None):
     n, m = len(src), len(tgt)
+    kw = {} if buffers is None else dict(time_buffer=buffers[0], freq_buffer=buffers[1])
     try:
-        res = list(match_geometries(src, tgt))
+        res = list(match_geometries(src, tgt, **kw))
     except Exception as e:
         s.fail(f"match_raises:{type(e).__name__}:n={n}:m={m}", f"match_geometries raised {type(e).__name__}: {e} ({key})")
         return
-    aff = [[compute_affinity(a, b) for b in tgt] for a in src]
+    aff = [[compute_affinity(a, b, **kw) for b in tgt] for a in src]
     si = sorted(i for i, _, _ in res if i is not None)
     ti = sorted(j for _, j, _ in res if j is not None)
     if si != list(range(n)) or ti != list(range(m)):
@@ -76,6 +77,14 @@ def main():
                 s.case(None, ("near", ka, kb, gap, df), sample=dict(source=[g.coordinates for g in src], target=[g.coordinates for g in tgt]))
                 check(s, f"near {ka} vs {kb} gap={gap} df={df}", src, tgt)
                 check(s, f"near {kb} vs {ka} gap={gap} df={df} (swapped)", tgt, src)
+    # non-default buffers: the affinities reported and optimised must be those of compute_affinity WITH these buffers
+    for (ka, kb), bufs in itertools.product((("TimeStamp", "TimeStamp"), ("Point", "Point"), ("TimeStamp", "LineString"), ("MultiPoint", "Point")),
+                                            ((0.001, 100.0), (0.5, 100.0), (0.01, 2000.0), (0.3, 1500.0))):
+        for gap, df in ((0.004, 0.0), (0.05, 150.0), (0.4, 900.0), (0.8, 2500.0)):
+            src = [near(ka, 1.0, 3000.0), near(ka, 1.0 + gap / 2, 3000.0 + df)]
+            tgt = [near(kb, 1.0 + gap, 3000.0 + df), near(kb, 6.0, 3000.0)]
+            s.case(None, ("buffers", ka, kb, bufs, gap, df), sample=dict(source=[g.coordinates for g in src], target=[g.coordinates for g in tgt], buffers=bufs))
+            check(s, f"buffers={bufs} {ka} vs {kb} gap={gap} df={df}", src, tgt, buffers=bufs)
     for k in range(60 if s.tier == "quick" else 600):
         n, m = s.rng.randint(0, 6), s.rng.randint(0, 6)
         src = [random_geometry(s.rng, s.rng.choice(TYPES), tmax=4.0) for _ in range(n)]
